@@ -1124,7 +1124,7 @@ fn c18(ctx: &Ctx) -> i32 {
             ctx,
             engine: "BB",
             rule: "histories of 3-9 steps over one tree (root project named or not, imported project sub): invocations from either entry project (-p), spelling bare / qualified / through an aggregate / as a dependency or X.output producer of another target / both spellings at once, optionally --clean U for another target, interleaved with content edits, touches and new files in input directories and with a target that fails on demand; prediction skipped <=> recorded snapshot == current snapshot, compared with script traces; non-trivial = a target reached by >= 2 routes with a failure or clean in the history; distinct = route set x root naming",
-            total_cases: ctx.tier.pick(400, 4000),
+            total_cases: ctx.tier.pick(1200, 6000),
             threads: 8.min(ctx.threads),
             max_shrink_iters: 120,
             stream: 118,
